@@ -1686,6 +1686,8 @@ def r124(ctx, repo):
     is_pct = "percentile" in last_attr(p)
 
 
+    q_note = ""
+
     def from_q(e, depth=0):
         """`e` is the parameter q, possibly converted to an array"""
         if depth > 6 or e is None:
@@ -1701,11 +1703,43 @@ def r124(ctx, repo):
                 "array", "asarray", "atleast_1d") and e.args:
             return from_q(e.args[0], depth + 1)
         return False
+
+    def array_safe(e, depth=0):
+        """a sequence q is an array before arithmetic is done on it
+        (`[.5, .9] * 100` repeats a list)"""
+        if depth > 6 or e is None:
+            return False
+        if isinstance(e, ast.Call) and last_attr(e) in (
+                "array", "asarray", "atleast_1d", "asanyarray") and e.args:
+            return from_q(e.args[0])
+        if isinstance(e, ast.IfExp):
+            t = txt(e.test)
+            if "isscalar" in t:
+                other = e.orelse if not t.startswith("not ") else e.body
+                return array_safe(other, depth + 1)
+            return array_safe(e.body, depth + 1) and array_safe(
+                e.orelse, depth + 1)
+        if isinstance(e, ast.Name):
+            vals = single.get(e.id, [])
+            if e.id != "q":
+                return bool(vals) and all(
+                    array_safe(v, depth + 1) for v in vals)
+            # q itself: converted in place somewhere before
+            return any(array_safe(v, depth + 1) for v in vals)
+        return False
     if is_pct:
-        ok_q = isinstance(qv, ast.BinOp) and isinstance(
-            qv.op, ast.Mult) and (
-            (from_q(qv.left) and txt(qv.right) in ("100", "100.0"))
-            or (from_q(qv.right) and txt(qv.left) in ("100", "100.0")))
+        opnd = None
+        if isinstance(qv, ast.BinOp) and isinstance(qv.op, ast.Mult):
+            if from_q(qv.left) and txt(qv.right) in ("100", "100.0"):
+                opnd = qv.left
+            elif from_q(qv.right) and txt(qv.left) in ("100", "100.0"):
+                opnd = qv.right
+        ok_q = opnd is not None
+        if ok_q and not array_safe(opnd):
+            ok_q = False
+            q_note = (" – a sequence `q` is not converted to an array "
+                      "before `* 100` (a list is repeated 100 times "
+                      "instead of scaled)")
     else:
         ok_q = from_q(qv)
     ok = txt(a) == dp and ok_q and last_attr(p).startswith("nan")
@@ -1713,7 +1747,7 @@ def r124(ctx, repo):
            "the level is the NaN-aware q-quantile of the densities at the "
            "events" if ok else
            f"`{short(p, 60)}` is not the NaN-aware q*100-th percentile of "
-           f"the densities at the events `{dp}`", node=p,
+           f"the densities at the events `{dp}`" + q_note, node=p,
            label="quantile: percentile of event densities")
 
 
@@ -2442,7 +2476,10 @@ def r126(ctx, repo):
                 mini, repo.cls("dclab/rtdc_dataset/filter.py", "Filter"),
                 all=fmask, _get_rw_array=lambda *a, **k: fmask,
                 _get_ro_array=lambda *a, **k: fmask)
-            me = Me(mini, cls, filter=filt)
+            me = Me(mini, cls, filter=filt, config={
+                "filtering": {"enable filters": True,
+                              "remove invalid events": False,
+                              "limit events": 0, "polygon filters": []}})
             tag = f"filter {mask}, downsampler keeps {pick}"
             # both return forms: (x, y, mask) and (x, y)
             with_mask = n_eval % 3 != 0
@@ -3234,5 +3271,18 @@ MUTANTS = list(MUTANTS) + [
       '        ("%-gated", lambda mm: np.average(mm.filter.all)),\n'
       "        ]:\n"
       "    Statistics(name=_name, method=_method)\n"), "R12.1"),
+]
+
+
+MUTANTS = list(MUTANTS) + [
+    ("quantiles: sequence q no longer converted to an array (seeded)", KDC,
+     ("    if not np.isscalar(q):\n        q = np.array(q)\n", ""),
+     "R12.4"),
+]
+
+TWINS = list(TWINS) + [
+    ("quantiles: q converted unconditionally", KDC,
+     ("    if not np.isscalar(q):\n        q = np.array(q)\n",
+      "    q = np.asarray(q)\n")),
 ]
 
